@@ -71,6 +71,10 @@ TWINS = [
  ("size-le-form-varint", "h3/src/proto/varint.rs", [
    ("        if x < 2u64.pow(6) {\n            1\n", "        if x <= 63 {\n            1\n"),
  ]),
+ ("match-instead-of-try-poll-read", "h3/src/stream.rs", [
+   ("        let data = ready!(self.stream.poll_data(cx))?;\n\n        if let Some(mut data) = data {\n            self.buf.push_bytes",
+    "        let data = match ready!(self.stream.poll_data(cx)) {\n            Ok(data) => data,\n            Err(err) => {\n                return Poll::Ready(Err(err));\n            }\n        };\n\n        if let Some(mut data) = data {\n            self.buf.push_bytes"),
+ ]),
  ("min-form-cursor", "h3/src/stream.rs", [
    ("            let advanced = usize::min(cnt, remaining_header);", "            let advanced = if cnt < remaining_header { cnt } else { remaining_header };"),
  ]),
